@@ -143,6 +143,12 @@ def gen_history(rng, targets, cfg_keys, tier):
     counter = [0]
     p_fault = rng.choice([0.15, 0.3, 0.45])
 
+    p_crash = rng.choice([0.0, 0.0, 0.1, 0.25])
+
+    def crash():
+        # the run dies before its k-th task (a lost worker / a cancelled compute); a later event computes again
+        return {"fail_at": rng.randint(0, 8)} if rng.random() < p_crash else {}
+
     def fault():
         r = rng.random()
         if r < 0.6:
@@ -187,15 +193,15 @@ def gen_history(rng, targets, cfg_keys, tier):
             counter[0] += 1
             v = rng.choice(live)
             o = f"p{counter[0]}"
-            hist.append(dict({"ev": "persist", "var": v, "out": o}, **H.rand_sched(rng)))
+            hist.append(dict({"ev": "persist", "var": v, "out": o}, **H.rand_sched(rng), **crash()))
             extra.append(o)
         elif r < 0.68 and built:
             hist.append({"ev": "build", "var": rng.choice(built), "force": True})
         elif r < 0.76 and len(live) >= 2:
             hist.append(dict({"ev": "compute_many", "vars": rng.sample(live, rng.randint(2, min(3, len(live))))},
-                             **H.rand_sched(rng)))
+                             **H.rand_sched(rng), **crash()))
         else:
-            hist.append(dict({"ev": "compute", "var": rng.choice(live)}, **H.rand_sched(rng)))
+            hist.append(dict({"ev": "compute", "var": rng.choice(live)}, **H.rand_sched(rng), **crash()))
     for v in built:
         hist.append(dict({"ev": "compute", "var": v}, **H.rand_sched(rng)))
     return hist
@@ -248,6 +254,14 @@ def run_history(m, case, stats, log, check=None):
             raise
         except G.fakes.InjectedIOError:
             raise
+        except G.fakes.InjectedTaskFailure:
+            # injected crash in the middle of this run: nothing is returned; what must hold is that every
+            # LATER materialisation is unaffected (no half-built state left in the collection's or the
+            # process-wide caches)
+            seen_mat = True
+            pending_fault += 1
+            log.append([i, ev["ev"], var, "crashed"])
+            continue
         except Exception as e:  # noqa: BLE001
             if ev["ev"] == "build":
                 # construction under a flipped config failed: the statement is about computed
@@ -305,6 +319,9 @@ def _compute_many(m, i, ev, stats, log):
         out = m.apply(dict(ev, vars=vs))
     except Violation:
         raise
+    except G.fakes.InjectedTaskFailure:
+        log.append([i, "compute_many", vs, "crashed"])
+        return
     except Exception as e:  # noqa: BLE001
         if all(u["error"] is None for u in usable.values()):
             raise Violation(ID, "raises-under-history",
